@@ -330,6 +330,12 @@ def make_units(case_list, tier, chunk, schemes_=None, grid_fn=None):
 def build_db(seed, name, label, cfg, profile, kwlen, relation, awkward=True):
     from mc import det
     kwlen = min(kwlen, kw_limit(name, cfg))
+    if name == 'CGKO06.SSE2' and relation != 'disjoint':
+        # SSE-2's capacity: a file may occur under at most param_max keywords (derived from param_max_file_size); a database in
+        # which identifiers are shared by more keywords than that is not valid for the configuration
+        from schemes.CGKO06.SSE2.config import determine_param_max
+        if determine_param_max(cfg['param_max_file_size']) < len(profile):
+            relation = 'disjoint'
     g = det.rng(seed, 'db', name, label, tuple(profile), kwlen, relation)
     db = domains.make_db(profile, cfg.get('param_identifier_size', 8), kwlen, g, relation, awkward)
     return db, finalize_cfg(name, cfg, db), g
